@@ -224,7 +224,7 @@ def system(draw, n_sim=(1, 6), q_hi=80, q_lo=0, feedforward=None, lags=(0, 3), e
             if nm in aliasn and not alias_ic:
                 continue
             if draw(st.sampled_from([True] * ic_prob + [False] * (100 - ic_prob))):
-                ics.append([nm, draw(st.sampled_from(['5.0', '-2.5', '10', '0.125', '1e1', '3.']))])
+                ics.append([nm, draw(st.sampled_from(['5.0', '0.0', '-2.5', '10', '0.125', '1e1', '3.', '0']))])
     tol = draw(st.sampled_from(list(tols)))
     ut = draw(st.sampled_from(list(user_t)))
     if ut:
